@@ -256,3 +256,22 @@ Proof.
   rewrite (Permutation.Permutation_length HP).
   rewrite (disambiguate_ext (coll bad) (coll bad') (fun s => coll_perm _ _ s HP)). reflexivity.
 Qed.
+
+(* ---------------- the cycle check never runs out of the model's fuel ---------------- *)
+Lemma pot_keys pm0 (pm : pmap entry) :
+  pot (succ_of pm0) (keys pm) [] = fold_right (fun kv n => List.length (succ_of pm0 (fst kv)) + n) 0 pm.
+Proof. induction pm as [|[k c] r IH]; cbn; auto. Qed.
+
+Theorem verify_never_out_of_fuel tyorder pm : NoDup (keys pm) -> verify tyorder pm <> [SFuel].
+Proof.
+  intros Hnd. unfold verify.
+  destruct (mrootsL_bound (succ_of pm) (keys pm) Hnd (succ_key pm) (roots_of tyorder pm) (acyc_fuel pm)) as (v & c & H).
+  { unfold acyc_fuel. rewrite pot_keys. lia. }
+  rewrite H. intros Heq. destruct c; discriminate.
+Qed.
+
+(* C07 with the explicit bound: on every duplicate-free map the check completes within
+   3 + |keys| + (sum of successor counts) iterations per root and accepts exactly the acyclic maps *)
+Theorem verify_acyclic_iff_total tyorder pm : NoDup (keys pm) ->
+  (verify tyorder pm = [] <-> ~ exists u, path (succ_of pm) u u).
+Proof. intros Hnd. apply verify_acyclic_iff. apply verify_never_out_of_fuel. exact Hnd. Qed.
